@@ -823,6 +823,13 @@ func (p *Parser) parseDotExp(left ast.Expression) ast.Expression {
 		Left:  left,
 	}
 
+	// behind a dot a keyword is the name of a property like any other
+	// name (a key of a data map may be called "in" or "nil")
+	switch p.peekToken.Type {
+	case token.TRUE, token.FALSE, token.NIL, token.IN:
+		p.peekToken.Type = token.IDENT
+	}
+
 	if !p.expectPeek(token.IDENT) { // skip "." and move to identifier
 		return nil
 	}
